@@ -11,6 +11,7 @@ import GoProbeModel.Spec.C04
 import GoProbeModel.Spec.C19
 import GoProbeModel.Spec.C15
 import GoProbeModel.Spec.C03
+import GoProbeModel.Spec.C09
 
 /-!
 `gpjudge`: executable specs. Reads lines `<Cxx> <case fields…> => <implementation output>` and
@@ -29,5 +30,6 @@ def main : IO Unit := DriverLoop.runJudge [
   ("C04", C04.judge),
   ("C19", C19.judge),
   ("C15", C15.judge),
-  ("C03", C03.judge)
+  ("C03", C03.judge),
+  ("C09", C09.judge)
 ]
